@@ -289,12 +289,19 @@ def global_state_census(rep):
         if nm == 'RESERVED_KEYWORDS' or hasattr(builtins, nm):
             continue
         v = getattr(idmod, nm, None)
-        if not isinstance(v, (types.ModuleType, type, types.FunctionType, str, int, frozenset, tuple)) and type(v).__name__ != 'Pattern':
+        memo_fn = callable(v) and isinstance(getattr(v, '__wrapped__', None), types.FunctionType) and hasattr(v, 'cache_info')
+        # (a memoised function is a function; what it hands out is judged by C20.globals.memo on the real code)
+        if not isinstance(v, (types.ModuleType, type, types.FunctionType, str, int, frozenset, tuple)) and type(v).__name__ != 'Pattern' and not memo_fn:
             impure.append(nm)
     from_consts = not impure and not fd.args.args and not fd.args.kwonlyargs and fd.args.vararg is None and fd.args.kwarg is None
     if r1 == r2 and before <= r1 and only_add and from_consts:
         rep.proved('C20.reserved.idem', 'frames', f'get_reserved_words only adds names of the constant token tables; second call returns the same {len(r1)} words',
                    function='mindsdb_sql.parser.ast.select.identifier:get_reserved_words', clause='the shared set only grows, by values independent of arguments and history; fixed point after the first call')
+    elif r1 == r2 and before <= r1 and only_add:
+        # the run-time part holds (the set only grew and reached a fixed point); that the added values do not depend on history could not be read off the
+        # free names of the function: undecided, not refuted
+        rep.undecided('C20.reserved.idem', 'frames', f'the shared set only grows and the second call returns the same {len(r1)} words, but history independence of the added values is not established: '
+                      f'free names read: {free}, not recognised as constants: {impure}', function='mindsdb_sql.parser.ast.select.identifier:get_reserved_words')
     else:
         rep.failed('C20.reserved.idem', 'frames', f'RESERVED_KEYWORDS handling changed: only_add={only_add} from_constants={from_consts} (free names read: {free}, not constant: {impure}) stable={r1 == r2}',
                    function='mindsdb_sql.parser.ast.select.identifier:get_reserved_words')
